@@ -191,6 +191,8 @@ PROPS = {
         "streams": [
             {"stream": "fmt", "families": ALL_FAMILIES + ",pairs,condinline,mlsshift", "quick": 8750, "thorough": 40000,
              "binding": ["pre", "wp", "wcn", "sx", "out", "*"], "args": {"oracles": "c08"}},
+            # the closed model against the real formatter; the driver tallies the premise of C08_format_full_checked (info_c08)
+            {"stream": "full", "name": "whole", "families": ALL_FAMILIES + ",marked,condinline,mlsshift,regions", "quick": 4000, "thorough": 40000, "binding": ["out", "*"]},
         ],
         "oracle_prefixes": ["c08", "glue"],
         "abnormal_binding": False,
@@ -198,7 +200,7 @@ PROPS = {
                        "canonFmt, tallied per case as info_cn) the reconstructor emits nothing-or-one-space on a line, or 1-2 configured "
                        "breaks followed by whole indentation units. Exact models of TokenSpacing, EofNewline, settings conversion and "
                        "reconstruction are tied by the fmt stream (pre, out). The direct line-scanner oracle runs on every case.",
-        "assumptions": ["final counters are canonical (wrapper contract; not established for lines the wrapper cannot solve)",
+        "assumptions": ["final counters are canonical: a theorem for the closed model (C08_format_full_checked) whenever every token is written by a first-phase solution (canonPremisesB, tallied per case as info_c08); not established for lines the wrapper cannot solve (F34)",
                         "continuation_indents*tab_width <= 255 for the unit law (saturation is known finding F6)"],
     },
     "C09": {
